@@ -17,7 +17,7 @@ from vf import core, recgen
 from vf.coqlit import cbool, clist, cstr
 
 THEOREMS = [
-    "C15_generated_facts", "C15_generated_timestamp_record", "C15_generated_reserved_distinct", "C15_generated_purity_shapes",
+    "C15_generated_facts", "C15_generated_timestamp_record", "C15_generated_reserved_distinct", "C15_generated_purity_shapes", "C15_caches_keyed_by_definition", "C15_cache_identifier_key_refuted",
     "C15_merge_order_and_precedence", "C15_merge_wording", "C15_extend_values", "C15_originals_unchanged",
     "C15_expand", "C15_grouped_view", "C15_nested_group_flattens", "C15_nested_group_prefix_refuted", "C15_grouped_set", "C15_grouped_replace", "C15_replace_project_only_named",
     "C15_init_from_record",
@@ -826,7 +826,105 @@ def case_asdict(g, T):
     return [], ("asdict", repr(mobs), tuple(F), tuple(X)), special or len(members) > 1
 
 
-KINDS = [("asdict", case_asdict, 300), ("merge", case_merge, 250), ("extend", case_extend, 450), ("expand", case_expand, 350), ("group", case_group, 300),
+# ---- descriptors whose identifier input (name, then field name + typename of every field) coincides, by construction
+def colliding_pair(g):
+    """-> (name, fields_a, fields_b): different definitions with the same concatenation"""
+    from flow.record import RecordDescriptor
+    rnd = g.rnd
+    stem = rnd.choice(["a", "x", "val", "f1"])
+    other_t = rnd.choice(["varint", "boolean", "datetime", "float", "bytes", "string", "uri"])
+    k = rnd.randrange(5)
+    if k == 0:
+        fa, fb = [("string", stem + "w")], [("wstring", stem)]
+    elif k == 1:
+        fa, fb = [("string[]", stem + "w")], [("wstring[]", stem)]
+    elif k == 2:
+        fa, fb = [("stringlist", stem), (other_t, "b")], [("string", stem), (other_t, "listb")]
+    elif k == 3:
+        fa, fb = [(other_t, stem), ("string", "b")], [("string", stem + other_t + "b")]
+    else:
+        fa, fb = [("datetime", stem), ("string", "cw")], [("datetime", stem), ("wstring", "c")]
+    # common neighbours (same on both sides)
+    pre = [(rnd.choice(["varint", "datetime", "string"]), n) for n in rnd.sample(["p", "q"], rnd.randint(0, 2))]
+    post = [(rnd.choice(["varint", "datetime", "string"]), n) for n in rnd.sample(["y", "z"], rnd.randint(0, 1))]
+    fa, fb = pre + fa + post, pre + fb + post
+    name = rnd.choice(["coll/extra", "t/a"])
+    if RecordDescriptor.calc_descriptor_hash(name, tuple(fa)) != RecordDescriptor.calc_descriptor_hash(name, tuple(fb)):
+        raise Bad("the constructed descriptors %r / %r no longer share their identifier (the hash input changed)" % (fa, fb), {})
+    if rnd.random() < 0.5:
+        fa, fb = fb, fa
+    return name, fa, fb
+
+
+def sample_value(g, t):
+    if t == "stringlist":
+        return [recgen.text_sample(g.rnd, False) for _ in range(g.rnd.randrange(3))]
+    return g.listval(t[:-2]) if t.endswith("[]") else recgen.value_sample(g.rnd, t)
+
+
+def case_collide(g, T):
+    """the same operation with the same partners, first on a record of one definition, then on a record of a DIFFERENT
+    definition that shares the first one's identifier (descriptor-keyed caches must tell them apart)"""
+    from flow.record import GroupedRecord, RecordDescriptor, extend_record, iter_timestamped_records
+    from flow.record.base import merge_record_descriptors
+    from flow.record.stream import RecordFieldRewriter
+    rnd = g.rnd
+    name, fa, fb = colliding_pair(g)
+    recs = []
+    for fl in (fa, fb):
+        d = RecordDescriptor(name, fl)
+        g.made.append((d, list(fl)))
+        if d.get_field_tuples() != tuple(fl):
+            raise Bad("RecordDescriptor(%r, %r).get_field_tuples() = %r" % (name, fl, d.get_field_tuples()), {})
+        recs.append(d(_source=rnd.choice([None, "src"]), _generated=rnd.choice(GENS), **{n: sample_value(g, t) for t, n in fl}))
+    if recs[0]._desc == recs[1]._desc or not (recs[0]._desc != recs[1]._desc):
+        raise Bad("RecordDescriptor(%r, %r) == RecordDescriptor(%r, %r): descriptors of different definitions compare equal" % (
+            name, fa, name, fb), dict(fields_a=fa, fields_b=fb))
+    partners = [g.record(g.descriptor(lo=0, hi=3), preuse=False) for _ in range(rnd.randint(0, 2))]
+    pobs = [obs(p) for p in partners]
+    pos = rnd.randint(0, len(partners))
+    op = rnd.choice(["merge", "extend", "extend", "expand", "rewrite", "group"])
+    replace = rnd.random() < 0.5
+    newname = rnd.choice([None, "new/name"])
+    rw_fields = rnd.sample([n for _, n in fa + fb] + ["p", "zz"], rnd.randint(0, 3))
+    rw_excl = rnd.sample([n for _, n in fa + fb] + ["q"], rnd.randint(0 if rw_fields else 1, 2))
+    rw = RecordFieldRewriter(fields=rw_fields or None, exclude=rw_excl or None)       # ONE rewriter: its cache is per instance
+    for r in recs:
+        ro = obs(r)
+        seq = partners[:pos] + [r] + partners[pos:]
+        sobs = pobs[:pos] + [ro] + pobs[pos:]
+        what = "%s with %s (right after the same call with a record of %r)" % (op, [describe(o) for o in sobs], fa if r is recs[1] else None)
+        try:
+            if op == "merge":
+                out = merge_record_descriptors(tuple(x._desc for x in seq), replace, newname)
+                got = (out.name, [(n, t) for t, n in out.get_field_tuples()])
+                want = (newname if newname is not None else seq[0]._desc.name,
+                        ref_merge([[(n, t) for n, t, _ in o["fields"]] for o in sobs], replace))
+            elif op == "extend":
+                got = obs(extend_record(seq[0], seq[1:], replace=replace, name=newname))
+                want = ref_extend(sobs, replace, newname)
+            elif op == "expand":
+                got = [obs(o) for o in iter_timestamped_records(r)]
+                want = ref_expand(ro)
+            elif op == "rewrite":
+                got = obs(rw.rewrite(r))
+                want = ref_project(ro, rw_fields, rw_excl)
+            else:
+                grp = GroupedRecord("grp/c", seq)
+                got = obs(grp)
+                want = ref_group_view("grp/c", sobs)
+        except Bad:
+            raise
+        except Exception as e:  # noqa
+            got, want = "raised %s: %s" % (type(e).__name__, e), None
+        if got != want or want is None:
+            raise Bad("%s gave %s, expected %s" % (what, repr(got), repr(want)),
+                      dict(op=op, fields_a=fa, fields_b=fb, replace=replace, name=newname, got=repr(got), want=repr(want)))
+        check_unchanged(sobs, seq, what)
+    return [], ("collide", op, name, tuple(fa), tuple(fb), replace, newname, repr(pobs), pos), True
+
+
+KINDS = [("collide", case_collide, 250), ("asdict", case_asdict, 300), ("merge", case_merge, 250), ("extend", case_extend, 450), ("expand", case_expand, 350), ("group", case_group, 300),
          ("greplace", case_group_replace, 350), ("rreplace", case_rec_replace, 150), ("rewrite", case_rewrite, 400),
          ("init", case_init, 150)]
 
@@ -927,7 +1025,10 @@ def run(ctx):
         "repr, init_from_record) and after every case each descriptor must still report exactly its declared fields (fields, "
         "get_field_tuples, getfields(t), get_all_fields). distinct = distinct (operation, observed inputs, parameters); non-trivial = overlapping field "
         "names across the inputs / >= 2 timestamp fields or a field called ts/ts_description / shadowed member fields with a "
-        "non-empty replacement / a non-empty projection")
+        "non-empty replacement / a non-empty projection. Collisions: pairs of DIFFERENT descriptors of one name whose identifier input "
+        "(field name + typename concatenation) coincides by construction (string/wstring, string[]/wstring[], stringlist/string+list, "
+        "two fields/one field) are put through the same merge / extend / expansion / one rewriter / grouping with the same partners "
+        "one after the other in one process")
     ok = core.standard_proof_stage(ctx, ["props/C15.vo"], "C15", THEOREMS, search_fn=search, gens=["gen_compose"])
     ctx.assumptions += [
         "values are opaque to the composition code: the model moves tokens; a token is the canonical deep observation of the value "
